@@ -168,7 +168,8 @@ func (s *dclStash) createBinding(name string, deletable bool, value Value) {
 func (s *dclStash) setBinding(name string, value Value, strict bool) {
 	prop, exists := s.property[name]
 	if !exists {
-		panic(fmt.Errorf("setBinding: %s: missing", name))
+		// The binding was deleted after the reference to it was taken.
+		panic(s.rt.panicReferenceError("'%s' is not defined", name))
 	}
 	if prop.mutable {
 		prop.value = value
@@ -190,7 +191,8 @@ func (s *dclStash) setValue(name string, value Value, throw bool) {
 func (s *dclStash) getBinding(name string, throw bool) Value {
 	prop, exists := s.property[name]
 	if !exists {
-		panic(fmt.Errorf("getBinding: %s: missing", name))
+		// The binding was deleted after the reference to it was taken.
+		panic(s.rt.panicReferenceError("'%s' is not defined", name))
 	}
 	if !prop.mutable && !prop.readable {
 		if throw { // strict?
